@@ -80,6 +80,15 @@ func drawConfFile(t *rapid.T, label string) []confSeg {
 	var segs []confSeg
 	text := func(s string) { segs = append(segs, confSeg{Kind: "text", Text: s}) }
 	slot := func(k string) { segs = append(segs, confSeg{Kind: k}) }
+	bare := chance(t, 15, label+"-bare") // a minimal file: only the year and the short version markers, the word OWASP never occurs
+	if bare {
+		text("# Copyright (c) 2021-")
+		slot("year")
+		text(" " + pick(t, []string{"CRS", "Core Rule Set"}, label+"-crname2") + " project. All rights reserved.\n\nSecAction \\\n    \"id:900990,\\\n    phase:1,\\\n    pass,\\\n    setvar:tx.crs_setup_version=")
+		slot("short")
+		text("\"\n")
+		return segs
+	}
 	if chance(t, 85, label+"-hdr") {
 		text("# ------------------------------------------------------------------------\n")
 		text("# OWASP " + pick(t, []string{"CRS", "ModSecurity Core Rule Set"}, label+"-name") + " ver.")
